@@ -159,6 +159,87 @@ theorem chunkList_length_le (l : List γ) (mn op : ℕ) (cs : List (List γ)) (h
 
 end Chunk
 
+/-! ### closed form of the number of chunks -/
+
+
+theorem ceil_div_eq (n op : ℕ) (hop : 0 < op) :
+    (n + op - 1) / op = if n % op = 0 then n / op else n / op + 1 := by
+  have h := Nat.div_add_mod n op
+  have hr := Nat.mod_lt n hop
+  have e1 : (n / op + 1) * op = op * (n / op) + op := by ring
+  have e2 : (n / op + 1 + 1) * op = op * (n / op) + op + op := by ring
+  have e0 : n / op * op = op * (n / op) := by ring
+  split_ifs with h0
+  · exact Nat.div_eq_of_lt_le (by omega) (by omega)
+  · exact Nat.div_eq_of_lt_le (by omega) (by omega)
+
+theorem mergeTail_length {γ : Type} (chunks : List (List γ)) (mn : ℕ) (last : List γ) (before : List (List γ))
+    (hch : chunks = before ++ [last]) (hb : before ≠ []) :
+    ∃ cs, mergeTail chunks mn = .ok cs ∧ cs.length = if last.length < mn then before.length else before.length + 1 := by
+  unfold mergeTail
+  have hrev : chunks.reverse = last :: before.reverse := by rw [hch]; simp
+  rw [hrev]
+  simp only
+  split_ifs with h
+  · rcases hbr : before.reverse with _ | ⟨prev, rest⟩
+    · have := congrArg List.length hbr
+      rw [List.length_reverse, List.length_nil] at this
+      exact absurd (List.length_eq_zero_iff.mp this) hb
+    · simp only
+      refine ⟨_, rfl, ?_⟩
+      have := congrArg List.length hbr
+      rw [List.length_reverse, List.length_cons] at this
+      simp only [List.length_append, List.length_reverse, List.length_cons, List.length_nil]; omega
+  · exact ⟨chunks, rfl, by rw [hch]; simp⟩
+
+
+
+/-- closed form of the number of operands of the chunked regime: `⌈n / opt⌉` chunks, one less when the last chunk
+(`n % opt` entries, or `opt` when `opt ∣ n`) is shorter than `min` and is merged into its predecessor -/
+theorem numOperands_eq (n mn op : ℕ) (hop : 1 ≤ op) (hn : 2 * op ≤ n) :
+    numOperands n mn op =
+      if (if n % op = 0 then op else n % op) < mn then (n + op - 1) / op - 1 else (n + op - 1) / op := by
+  unfold numOperands
+  rw [chunkList_eq, List.length_replicate, if_neg (by omega), if_neg (by omega)]
+  have hk2 : 2 ≤ (n + op - 1) / op := by
+    have := ceil_mul_ge n op hop
+    by_contra hcon
+    have : (n + op - 1) / op ≤ 1 := by omega
+    have : (n + op - 1) / op * op ≤ 1 * op := Nat.mul_le_mul_right op this
+    omega
+  obtain ⟨k', hk'⟩ : ∃ k', (n + op - 1) / op = k' + 1 := ⟨(n + op - 1) / op - 1, by omega⟩
+  have hraw : rawChunks (List.replicate n ()) op =
+      ((List.range k').map fun k => ((List.replicate n ()).drop (k * op)).take op) ++
+        [((List.replicate n ()).drop (k' * op)).take op] := by
+    unfold rawChunks
+    rw [List.length_replicate, hk', List.range_succ, List.map_append]
+    rfl
+  have hb : ((List.range k').map fun k => ((List.replicate n ()).drop (k * op)).take op) ≠ [] := by
+    intro hh
+    have := congrArg List.length hh
+    simp at this
+    omega
+  obtain ⟨cs, hcs, hlen⟩ := mergeTail_length _ mn _ _ hraw hb
+  rw [hcs]
+  simp only [hlen, List.length_take, List.length_drop, List.length_replicate, List.length_map, List.length_range]
+  have hlast : min op (n - k' * op) = if n % op = 0 then op else n % op := by
+    have hc := ceil_div_eq n op hop
+    have h := Nat.div_add_mod n op
+    have hr := Nat.mod_lt n hop
+    rw [hk'] at hc
+    split_ifs at hc ⊢ with h0
+    · have : k' * op = op * (n / op) - op := by
+        have : n / op = k' + 1 := hc.symm
+        rw [this]; ring_nf; omega
+      omega
+    · have : k' * op = op * (n / op) := by
+        have : k' = n / op := by omega
+        rw [this]; ring
+      omega
+  rw [hlast, hk']
+  split_ifs <;> omega
+
+
 /-! ### EfficientBackend -/
 
 variable [DecidableEq R]
